@@ -15,31 +15,34 @@ T = {
  "C07": ("exploration", "solve_exact_cover contract (exact covers, find_all = set of all covers, INFEASIBLE iff none, input unchanged, repeatable) exhaustive over small 0/1 matrices; cover/uncover inverse contract on the private helpers.", "contract RAC, exhaustive small scope"),
  "C08": ("exploration", "max_flow contract (capacity, conservation, value = min cut) vs brute-force min cut.", "contract RAC vs min-cut oracle"),
  "C09": ("exploration", "min_cost_flow / network_simplex / solve_assignment contracts vs exact successive-shortest-path oracle with potentials.", "contract RAC vs certified min-cost-flow oracle"),
- "C10": ("exploration", "solve_hungarian contract (matching shape, objective = sum, optimal for min and max) incl. call histories in one process, vs enumeration / subset DP / certified oracle.", "contract RAC vs exact assignment oracles"),
+ "C10": ("exploration", "solve_hungarian: optimality certificate proved deductively for all matrices (403 obligations; two paper lemmas close the argument, termination not proved); the top-level contract (matching shape, objective = sum, optimal for min and max) is also executed on enumerated / ladder / history inputs vs exact oracles.", "pyvc proof of the dual certificate + contract RAC vs exact assignment oracles"),
  "C11": ("exploration", "shortest-path solver contracts (distance = delta, INFEASIBLE/UNBOUNDED verdicts, path validity, mutual agreement) vs exact oracle on all small digraphs/grids.", "contract RAC vs exact shortest-path oracle"),
  "C12": ("exploration", "adapter(args) ~ python_impl(args) for the nine accelerated functions with the extension rebuilt from rust/; Rust kernels are external (no Rust verifier installed).", "differential contract RAC python vs rebuilt rust extension"),
  "C13": ("exploration", "kruskal/prim contracts (spanning, acyclic, objective, minimal, statuses) vs spanning-tree enumeration / independent Prim.", "contract RAC vs MST oracles"),
  "C14": ("exploration", "SCC / topological_sort / condense contracts vs Boolean transitive closure on all small digraphs.", "contract RAC vs transitive-closure oracle"),
  "C15": ("exploration", "definitions of articulation points, bridges, k-cores, PageRank equation, Louvain partition/modularity as executable postconditions on all small graphs.", "contract RAC vs brute-force definitions"),
- "C16": ("exploration", "solve_knapsack / solve_bin_pack contracts vs exhaustive subset / packing enumeration.", "contract RAC vs brute force"),
+ "C16": ("exploration", "solve_knapsack: DP proved deductively against the knapsack recursion for all inputs (370 obligations, int- and float-typed variants; Bellman's principle is a paper lemma); solve_knapsack / solve_bin_pack contracts executed vs exhaustive enumeration, DP and planted-packing oracles.", "pyvc proof of the DP + contract RAC vs brute force / certifying oracles"),
  "C17": ("exploration", "solve_cg / solve_bp contracts (patterns fit, demands met, objective = rolls >= OPT, OPTIMAL only if = OPT) vs exact DP optimum.", "contract RAC vs exact cutting-stock DP"),
- "C18": ("exploration", "job-shop schedule validity and VRP state contract after every operator call and for the final result.", "contract RAC with operator-level monitoring"),
+ "C18": ("exploration", "job_shop._dispatch proved to build a valid and complete schedule for every rule and seed; job-shop schedule validity and VRP state contract executed after every operator call and for the final result.", "pyvc proof of the schedule builder + contract RAC with operator-level monitoring"),
  "C19": ("exploration", "book-keeping contract of the twelve search heuristics via a recording proxy (objective = f(solution), best of evaluated, evaluations = calls, bounds, mirror, reproducibility).", "contract RAC with recording proxy on adversarial objectives"),
  "C20": ("proof", "every method of UnionFind and FenwickTree under contract; all obligations generated from the current source are discharged for all inputs/iterations (ghost representative map and potential; Fenwick bit lemmas at BV64); the refinement meta-theorem M0 lifts per-method obligations to all histories. A bounded model-based cross-check runs alongside and is not counted.", "deductive: pyvc VC generation from the real AST + z3 (BV64 lemmas), counter-model replay on the real code"),
 }
 PROVED = {
- "C01": "proved: lit_var/lit_sign/lit_neg, solve_sat.unassign_to, solve_sat.assign (trail consistency)",
- "C02": "proved: luby (termination, value), solve_sat.unassign_to/assign",
+ "C01": "proved: lit_var/lit_sign/lit_neg, solve_sat.unassign_to, solve_sat.assign (trail consistency), solve_sat.reduce_db / add_watch (every clause with score <= 3, hence every blocking clause, survives the reduction of a database of any size)",
+ "C02": "proved: luby (termination, value), solve_sat.unassign_to/assign, reduce_db/add_watch",
  "C03": "proved: check_matrix_dims, simplex._extract", "C04": "proved: _most_fractional, _compute_gap, check_matrix_dims",
  "C06": "proved for all Boolean assignments: _encode_eq_const/_ne_const/_ne_var/_at_most_one/_exactly_one",
- "C09": "proved: network_simplex._residual", "C10": "proved: assignment_cost",
- "C11": "proved: path validity of dijkstra/astar/bfs/dfs, bellman_ford distance certificate, reconstruct_path, _reconstruct_indexed",
- "C13": "proved: kruskal structure via the UnionFind contract, check_positive, check_edge_nodes",
- "C15": "proved: kcore filter (kcore_decomposition by assumed contract)", "C17": "proved: bp._most_fractional, bp._build_solution",
- "C18": "proved: _compute_makespan",
+ "C09": "proved: network_simplex._residual",
+ "C10": "proved: solve_hungarian optimality certificate (dual-feasible potentials of the zero-padded matrix, tight row-perfect matching, assignment = its restriction, objective = sum of the original entries, no arithmetic on +-inf), assignment_cost; weak duality and the padding argument are paper lemmas",
+ "C11": "proved: dijkstra real path AND optimality / infeasibility certificate, path validity of astar/bfs/dfs, bellman_ford distance certificate, reconstruct_path, _reconstruct_indexed; no arithmetic on +-inf under finite weights",
+ "C13": "proved: kruskal structure via the UnionFind contract, prim grows one tree of input edges with objective = weight sum, check_positive, check_edge_nodes (minimality: bounded only)",
+ "C15": "proved: kcore filter (kcore_decomposition by assumed contract)",
+ "C16": "proved: solve_knapsack (indices distinct and in range, objective = sum of values, weight test at every OPTIMAL return, DP value = the knapsack recursion KN, integer data unscaled), _to_int_capacity, check_non_negative; Bellman's principle is a paper lemma; solve_bin_pack bounded only",
+ "C17": "proved: bp._most_fractional, bp._build_solution",
+ "C18": "proved: job_shop._dispatch (valid and complete schedule for every rule and seed), _compute_makespan",
  "C19": "proved: Evaluator, anneal, tabu_search, lns, alns, evolve (book-keeping for all objectives, callbacks, seeds, iteration counts)",
 }
-NOTES = {"C20": "trusted: VC generator pyvc (own, ~2.5 kLoC), z3, builtin contract table entries used, A1/A2/A9, M0; component_sizes/get_components and the list-constructor of FenwickTree: see evidence (proved or bounded as stated there)"}
+NOTES = {"C20": "trusted: VC generator pyvc (own, ~4.8 kLoC), z3, builtin contract table entries used, A1/A2/A9, M0; component_sizes/get_components and the list-constructor of FenwickTree: see evidence (proved or bounded as stated there)"}
 m = json.load(open(os.path.join(V, "MANIFEST.json")))
 checks, na = [], []
 for pid in sorted(T):
